@@ -245,6 +245,14 @@ def obligations_from(result, gi):
         prim = [s for s in spans if s.get("is_primary")]
         sec = [s for s in spans if not s.get("is_primary")]
         line = prim[0]["line_start"] if prim else 0
+        if prim:
+            # failures inside a macro expansion (assert!/unreachable!/...) are reported at the macro
+            # definition: use the outermost invocation site instead
+            sp = prim[0]
+            while sp.get("expansion") and sp["expansion"].get("span"):
+                sp = sp["expansion"]["span"]
+                if sp.get("file_name", "").endswith("indextree_vx.rs"):
+                    line = sp["line_start"]
         if c == "tool":
             tools.append({"message": d.get("message"), "line": line, "rendered": d.get("rendered", "")})
             continue
